@@ -8,7 +8,6 @@ for l in open('/tmp/all_patches.log'):
     if rest.strip()!='silent':
         for it in rest.split(' ; '):
             pid,key=it.split(' ',1)
-            if key.startswith('M7/recursion/assemble_graph'): continue
             fails.setdefault(pid,[]).append(key)
     log[name]=fails
 bad=0
